@@ -139,6 +139,80 @@ def run(prop, tier):
                             "expected_filter_output": c["expectFilter"], "acceptable_choices": c["acceptable"], "observed": o,
                             "seed": seed, "how_to_replay": "write `case` as one line to cases.ndjson; harness/target/debug/hx-app routing "
                                                            "--in cases.ndjson --out obs.ndjson (bin/check %s %s, VERIF_SEED=%d, case line %d)" % (prop, tier, seed, line)})
+    # ---- application stage: the same decisions through passage::start(Config) on loopback with a real login ------------------
+    # (the wiring of discovery, filters, strategy and the authenticated identity in src/lib.rs and the listener is part of what
+    #  sends a player somewhere); only the Transfer / Disconnect is observable, judged by the choice clauses of Routing.tla
+    def app_ok(c):
+        ids = {}
+        for t in c["targets"]:
+            if ids.setdefault(t["address"], t["identifier"]) != t["identifier"]:
+                return False
+        n = c["player"]["name"]
+        return 1 <= len(n) <= 16 and all(ch.isalnum() or ch == "_" for ch in n) and len(c["host"].encode()) <= 255
+    napp = 240 if tier == "quick" else 4000
+    pool = [i for i, c in enumerate(cases) if app_ok(c)]
+    pri = [i for i in pool if kind_of(cases[i]) == "some-eligible"] + [i for i in pool if kind_of(cases[i]) != "some-eligible"]
+    chosen_idx = sorted(pri[:napp])
+    app_in, app_out = os.path.join(wd, "app_in.ndjson"), os.path.join(wd, "app_obs.ndjson")
+
+    def unempty(v):
+        if v == "<empty-object>":
+            return {}
+        if isinstance(v, list):
+            return [unempty(x) for x in v]
+        if isinstance(v, dict):
+            return {k: unempty(x) for k, x in v.items()}
+        return v
+    scs = []
+    for i in chosen_idx:
+        c = cases[i]
+        scs.append({"family": "C18app", "timeoutS": 8, "host": c["host"], "case": i,
+                    "adapters": {"authentication": {"fixed": {"profile": {"id": c["player"]["uuid"], "name": c["player"]["name"]}}},
+                                 "discovery": {"fixed": {"targets": [{"identifier": t["identifier"], "address": t["address"], "meta": {k: v for k, v in t["meta"]}}
+                                                                     for t in c["targets"]]}},
+                                 "filter": unempty(c["filters"]), "strategy": unempty(c["strategy"])}})
+    app_judged = 0
+    app_fail = {}
+    if scs:
+        vlib.write_ndjson(app_in, scs)
+        vlib.run_bin(hx, ["serve", "--in", app_in, "--out", app_out], timeout=1500)
+        aobs = vlib.read_ndjson(app_out)
+        if len(aobs) != len(scs):
+            raise vlib.ToolError("hx-app serve recorded %d observations for %d application cases" % (len(aobs), len(scs)))
+        arecs, amap = [], []
+        for sc, o in zip(scs, aobs):
+            c = cases[sc["case"]]
+            if o.get("harnessError") or o.get("end") in (None, "nologin", "timeout", "eof"):
+                continue            # not an observation of a routing decision (the application refused the configuration, or no login)
+            if o["end"] == "transfer":
+                tr_ = o["transfer"]
+                lab = [t["identifier"] for t in c["targets"] if t["address"] in ("%s:%s" % (tr_["host"], tr_["port"]), "[%s]:%s" % (tr_["host"], tr_["port"]))]
+                chosen = lab[0] if lab else "other:%s:%s" % (tr_["host"], tr_["port"])
+            else:
+                chosen = "none"
+            arecs.append({"line": len(arecs) + 1, "stage": "app", "abs": c["abs"], "targets": c["targets"], "player": c["player"], "host": c["host"],
+                          "obs": {"filtered": [], "chosen": chosen, "error": "", "panic": False}})
+            amap.append((sc, o, chosen))
+        if len(arecs) < len(scs) * 0.8:
+            raise vlib.ToolError("application stage: only %d of %d logins reached a routing decision: %s" % (len(arecs), len(scs), json.dumps(aobs[:3])[:800]))
+        atrace = os.path.join(wd, "app_trace.ndjson")
+        vlib.write_ndjson(atrace, arecs)
+        atr = vlib.run_tlc("Trace_Routing", "Trace_Routing.cfg", wd, workers=1, timeout=1500, markers=("FAIL", "DRIFT", "NOTCONSUMED"),
+                           env_extra={"TRACE": atrace}, java_opts=["-Xss1g", "-Dtlc2.tool.queue.IStateQueue=StateDeque"])
+        if not atr.ok or atr.marked["NOTCONSUMED"] or atr.distinct != len(arecs) + 1:
+            raise vlib.ToolError("trace validation (application stage) did not consume all %d records:\n%s" % (len(arecs), atr.output[-2000:]))
+        app_judged = len(arecs)
+        for f in atr.marked["FAIL"]:
+            sc, o, chosen = amap[f["line"] - 1]
+            c = cases[sc["case"]]
+            clauses = sorted(f["clauses"])
+            app_fail[f["line"]] = clauses
+            sig = "%s %s [through the application: %s]" % (prop, "+".join(clauses), describe(c))
+            rep.violation(sig, {"failing_clauses": clauses, "stage": "application (passage::start on loopback, real login as the authenticated player)",
+                                "configuration": sc["adapters"], "host": c["host"], "abstract_configuration": c["abs"], "acceptable_choices": c["acceptable"],
+                                "observed_end": o.get("end"), "observed_transfer": o.get("transfer"), "sent_to": chosen,
+                                "how_to_replay": "write the scenario (family C18app) as one line to in.ndjson; harness/target/debug/hx-app serve --in in.ndjson --out obs.ndjson"})
+        print("application stage: %d routing decisions through passage::start judged by TLC, %d failing" % (app_judged, len(app_fail)))
     rc = rep.finish()
     drift = len(tr.marked["DRIFT"])
     if drift:
@@ -176,6 +250,7 @@ def run(prop, tier):
         "observed_errors": sum(1 for o in observed if o["error"]),
         "table_entries_checked_against_rust": n_tables,
         "filter_order_drift": drift,
+        "application_stage_decisions_judged": app_judged,
         "tlc": ["%s: %s, %d cases, %.1fs" % (CFG[tier], mc.summary(), len(cases), mc.wall),
                 "Trace_Routing: %d records judged in %.1fs" % (len(observed), tr.wall)],
         "known_findings_hit": {k: n for k, (_, n) in rep.known_hit.items()},
